@@ -42,7 +42,13 @@ Definition row_eqb (full : bool) (a b : N * bool * bool * N) : bool :=
   let '(u, r, d, m) := a in let '(u', r', d', m') := b in
   (u =? u') && (negb full || Bool.eqb r r') && Bool.eqb d d' && (m =? m').
 
-Definition out_match (full : bool) (vm : vmap) (m o : out) : option vmap :=
+(* UIDNEXT is compared by the bounds of the property statement, not exactly:
+   above every existing UID of the mailbox ([lo] = the highest live UID of
+   the model mailbox) and not above the next UID that will be assigned (the
+   model's counter + 1) *)
+Definition uidnext_ok (lo n n' : N) : bool := (lo <? n') && (n' <=? n).
+
+Definition out_match (full : bool) (lo : N) (vm : vmap) (m o : out) : option vmap :=
   match m, o with
   | OBad, OBad => Some vm
   | ONo, ONo => Some vm
@@ -53,14 +59,24 @@ Definition out_match (full : bool) (vm : vmap) (m o : out) : option vmap :=
   | OCopy (Some (j, a, b)) p, OCopy (Some (v, a', b')) p' =>
     if bytes_eqb a a' && bytes_eqb b b' && post_match full p p' then bind_v vm j v else None
   | OSelect i ro e r n, OSelect v ro' e' r' n' =>
-    if Bool.eqb ro ro' && (e =? e') && (negb full || (r =? r')) && (n =? n') then bind_v vm i v else None
+    if Bool.eqb ro ro' && (e =? e') && (negb full || (r =? r')) && uidnext_ok lo n n' then bind_v vm i v else None
   | OStatus i e r n p, OStatus v e' r' n' p' =>
-    if (e =? e') && (negb full || (r =? r')) && (n =? n') && post_match full p p' then bind_v vm i v else None
+    if (e =? e') && (negb full || (r =? r')) && uidnext_ok lo n n' && post_match full p p' then bind_v vm i v else None
   | OFetch p rows, OFetch p' rows' =>
     if post_match full p p' && eqb_list (row_eqb full) rows rows' then Some vm else None
   | OStore p ok, OStore p' ok' =>
     if post_match full p p' && Bool.eqb ok ok' then Some vm else None
   | _, _ => None
+  end.
+
+Definition live_top (st : sys) (o : op) : N :=
+  match o with
+  | Select _ nm _ | Status _ nm =>
+    match find_box st nm with
+    | Some (_, b) => fold_left N.max (live_uids b) 0
+    | None => 0
+    end
+  | _ => 0
   end.
 
 Definition conn_ro (st : sys) (s : N) : bool :=
@@ -96,7 +112,7 @@ Fixpoint search (full : bool) (st : sys) (vm : vmap) (tr : list (op * out)) : bo
   | (o, ob) :: r =>
     existsb (fun ch =>
                let '(st', m) := step st o ch in
-               match out_match full vm m ob with
+               match out_match full (live_top st o) vm m ob with
                | Some vm' => search full st' vm' r
                | None => false
                end) (choices_for st o)
@@ -117,7 +133,7 @@ Fixpoint explain (full : bool) (st : sys) (vm : vmap) (tr : list (op * out)) : l
   | (o, ob) :: r =>
     fold_left (fun best ch =>
                  let '(st', m) := step st o ch in
-                 let cand := match out_match full vm m ob with
+                 let cand := match out_match full (live_top st o) vm m ob with
                              | Some vm' => m :: explain full st' vm' r
                              | None => [m]
                              end in
